@@ -161,7 +161,11 @@ def pop_case(draw):
         if kind == "scalar":
             W = draw(st.sampled_from([1.0, 2.0, -1.5, 0.5]))
         else:
-            W = [[draw(wv) for _ in range(sp_[2])] for _ in range(tp_[2])]
+            if draw(st.integers(0, 5)) == 0:
+                u = draw(st.sampled_from([0.5, 1.25, -0.75]))      # uniform (all-to-all K/N) coupling matrix
+                W = [[u for _ in range(sp_[2])] for _ in range(tp_[2])]
+            else:
+                W = [[draw(wv) for _ in range(sp_[2])] for _ in range(tp_[2])]
             if not any(any(r) for r in W):
                 W[0][0] = 1.25
         if (sp_[0], t) in used_targets and draw(st.integers(0, 4)) > 0:
@@ -227,6 +231,8 @@ class PopArm(Arm):
                 lab.add("scalar_weight")
             if c.get("coupling"):
                 lab.add("coupling_edge")
+            if isinstance(c["W"], list) and len({x for r in c["W"] for x in r}) == 1 and sum(len(r) for r in c["W"]) > 1:
+                lab.add("uniform_matrix")
             if c.get("d") is not None:
                 lab.add("delay+spread" if c.get("sp") is not None else "delay")
         if len(ps["pops"]) >= 2:
